@@ -25,6 +25,7 @@ import (
 	"github.com/sboehler/knut/lib/common/cpr"
 	"github.com/sboehler/knut/lib/common/date"
 	"github.com/sboehler/knut/lib/common/dict"
+	"github.com/sboehler/knut/lib/common/verif"
 	"github.com/sboehler/knut/lib/journal/printer"
 	"github.com/sboehler/knut/lib/model"
 	"github.com/sboehler/knut/lib/model/price"
@@ -131,6 +132,7 @@ func FromModelStream(modelCh <-chan []model.Directive) (<-chan *Builder, func(co
 					return err
 				}
 			}
+			verif.Emit("Added", "n", len(directives))
 			return nil
 		})
 		if err != nil {
@@ -151,6 +153,7 @@ func (j *Journal) Process(ps ...*Processor) error {
 			fs = append(fs, proc.Process)
 		}
 	}
+	fs = verifWrap(fs)
 	_, err := cpr.Seq(context.Background(), j.Days, fs...)
 	return err
 }
